@@ -128,8 +128,8 @@ def run_harness(coll, driver, params, out, timeout=None, raw=False):
             "coll": coll, "driver": driver, "params": params}
 
 
-JAVA_OPTS_TRACE = "-Xss1g -Xmx6g -XX:+UseParallelGC -XX:ParallelGCThreads=2"
-JAVA_OPTS_MODEL = "-Xss256m -Xmx12g -XX:+UseParallelGC -XX:ParallelGCThreads=4"
+JAVA_OPTS_TRACE = "-Xss1g -Xmx4g -XX:+UseParallelGC -XX:ParallelGCThreads=2"
+JAVA_OPTS_MODEL = "-Xss256m -Xmx8g -XX:+UseParallelGC -XX:ParallelGCThreads=4"
 
 NOISE = re.compile(r"^(Picked up|TLC2 Version|Running |Parsing file|Semantic processing|Starting\.\.\.|Implied-temporal|"
                    r"Computing initial|Computed \d|Finished computing|Progress\(|Finished in|Warning: Please|\(Use the|Linting of|"
